@@ -5,11 +5,15 @@
    I-level: the negotiation code transcribed: Server::init (src/api/server/sync_io.rs), Vfs::init
    (src/api/vfs/sync_io.rs), PassthroughFs::init (src/passthrough/sync_io.rs), OverlayFs::init
    (src/overlayfs/sync_io.rs).
-   One behaviour = one negotiation on one stack, followed by a second INIT. TLC enumerates every
-   case within the bit universe below and exports it for replay on the real stacks. *)
+   One behaviour = one negotiation on one stack, followed by a second INIT that offers something else (the same, nothing,
+   everything the client's minor allows, the complement), with or without a DESTROY in between (a re-mount on the same
+   server object). TLC enumerates every case within the bit universe below and exports it for replay on the real stacks. *)
 EXTENDS Naturals, FiniteSets, TLC
 CONSTANT ExtMarker     \* TRUE: Server::init announces extended (flags2) bits under the INIT_EXT marker (the code after the
                        \* "fix:" commit for C12); FALSE: the code as found, kept to reproduce the finding
+CONSTANT StickySw      \* TRUE: PassthroughFs::init / OverlayFs::init only ever switch behaviour ON (the code as found: a later
+                       \* INIT that negotiates less leaves the switches of the earlier session on); FALSE: init stores what this
+                       \* INIT negotiated
 
 \* capability bits that the code inspects, plus one inert bit of each half
 LowBits == {"ASYNC_READ", "BIG_WRITES", "ATOMIC_O_TRUNC", "WRITEBACK_CACHE", "ZERO_MESSAGE_OPEN", "ZERO_MESSAGE_OPENDIR",
@@ -73,12 +77,13 @@ LayerInit(capable, sw, imported, daxcfg) ==
 VfsDefaultOut == {"ASYNC_READ", "BIG_WRITES", "WRITEBACK_CACHE", "ZERO_MESSAGE_OPEN", "MAX_PAGES", "ATOMIC_O_TRUNC", "DO_READDIRPLUS",
                   "READDIRPLUS_AUTO", "ZERO_MESSAGE_OPENDIR", "HANDLE_KILLPRIV_V2", "PERFILE_DAX"}
 \* Vfs::init: sw.wb means VfsOptions.no_writeback = FALSE
-VfsOut(capable, sw) ==
-  LET o1 == IF sw.no_open THEN VfsDefaultOut \ {"ATOMIC_O_TRUNC"} ELSE VfsDefaultOut \ {"ZERO_MESSAGE_OPEN"}
+VfsOutFrom(base, capable, sw) ==
+  LET o1 == IF sw.no_open THEN base \ {"ATOMIC_O_TRUNC"} ELSE base \ {"ZERO_MESSAGE_OPEN"}
       o2 == IF sw.no_opendir THEN o1 ELSE o1 \ {"ZERO_MESSAGE_OPENDIR"}
       o3 == IF ~sw.wb THEN o2 \ {"WRITEBACK_CACHE"} ELSE o2
       o4 == IF ~sw.killpriv THEN o3 \ {"HANDLE_KILLPRIV_V2"} ELSE o3
   IN o4 \cap capable
+VfsOut(capable, sw) == VfsOutFrom(VfsDefaultOut, capable, sw)
 \* the filesystem side of a stack: what init(capable) returns and which switches it turns on
 FsInit(k, capable) ==
   CASE k.stack = "scripted" -> [want |-> k.want, t |-> NoSw]
@@ -102,6 +107,37 @@ ServerInit(k) ==
                   max_write |-> IF big THEN MaxBuffer ELSE 4096, max_pages |-> IF "MAX_PAGES" \in enabled THEN 256 ELSE 0],
            t |-> f.t, called |-> TRUE]
 
+\* what Server::init makes of a request: the capability set handed to the filesystem
+CapableOf(c) == IF "INIT_EXT" \in c.flags THEN (IF c.ext THEN c.flags \cup c.flags2 ELSE c.flags \ {"INIT_EXT"}) ELSE c.flags
+OrSw(a, b) == [x \in DOMAIN a |-> a[x] \/ b[x]]
+\* the reply Server::init builds from capable and the filesystem's answer (same arithmetic as in ServerInit)
+ReplyFrom(c, want) ==
+  LET capable == CapableOf(c)  enabled == capable \cap want  hi == enabled \cap HighBits
+      lo == (enabled \cap LowBits) \cup (IF ExtMarker /\ hi # {} THEN {"INIT_EXT"} ELSE {})
+      big == "BIG_WRITES" \in enabled \/ "MAX_PAGES" \in enabled
+  IN [status |-> "ok", size |-> ReplySize(c.minor), flags |-> lo, flags2 |-> hi, major |-> 7,
+      max_write |-> IF big THEN MaxBuffer ELSE 4096, max_pages |-> IF "MAX_PAGES" \in enabled THEN 256 ELSE 0]
+Refused == [status |-> "EINVAL", size |-> 0, flags |-> {}, flags2 |-> {}, major |-> 0, max_write |-> 0, max_pages |-> 0]
+(* A second INIT c2 on a stack that answered the first one (c1, outcome res1), after a DESTROY or not.
+   - Server::init keeps no state that matters here; a major mismatch is answered without the filesystem.
+   - scripted: the filesystem answers as before.
+   - pt / ovl standalone: init() runs again (DESTROY re-imports and touches no switch).
+   - VFS: refused with EINVAL while initialised; DESTROY clears `initialized`, and the next init starts from the options the
+     first one stored (no_open / no_opendir and out_opts already narrowed), and re-initialises its backends. *)
+SecondSession(c1, res1, c2, destroyed) ==
+  IF c2.major # "eq" \/ ~res1.called THEN [r |-> ServerInit(c2).r, t |-> res1.t, want |-> {}, called |-> FALSE]
+  ELSE LET cap1 == CapableOf(c1)  cap2 == CapableOf(c2) IN
+    CASE c1.stack = "scripted" -> [r |-> ReplyFrom(c2, c1.want), t |-> NoSw, want |-> c1.want, called |-> TRUE]
+      [] c1.stack \in {"pt", "ovl"} ->
+           LET f == LayerInit(cap2, c1.sw, TRUE, TRUE) IN
+           [r |-> ReplyFrom(c2, f.want), t |-> IF StickySw THEN OrSw(res1.t, f.t) ELSE f.t, want |-> f.want, called |-> TRUE]
+      [] OTHER ->
+           IF ~destroyed THEN [r |-> Refused, t |-> res1.t, want |-> {}, called |-> FALSE]
+           ELSE LET sw2 == [c1.sw EXCEPT !.no_open = @ /\ "ZERO_MESSAGE_OPEN" \in cap1, !.no_opendir = @ /\ "ZERO_MESSAGE_OPENDIR" \in cap1]
+                    out2 == VfsOutFrom(VfsOut(cap1, c1.sw), cap2, sw2)
+                    f == LayerInit(out2, sw2, FALSE, TRUE)
+                IN [r |-> ReplyFrom(c2, out2), t |-> IF StickySw THEN OrSw(res1.t, f.t) ELSE f.t, want |-> out2, called |-> TRUE]
+
 VARIABLES k, stage, res, second
 vars == <<k, stage, res, second>>
 SwOff == [no_open |-> FALSE, no_opendir |-> FALSE, wb |-> FALSE, killpriv |-> FALSE]
@@ -123,11 +159,24 @@ LayerCases == {c \in [stack : Stacks \ {"scripted"}, major : {"eq"}, minor : Min
                       ext : BOOLEAN, want : {{}}, sw : Sw] : MaySend(c)}
 MajorCases == [stack : Stacks, major : {"lt", "gt"}, minor : Minors, flags : {{}}, flags2 : {{}}, ext : {FALSE}, want : {{}}, sw : {SwOff}]
 Universe == ScriptedCases \cup LayerCases \cup MajorCases
-Init == k \in Universe /\ stage = "start" /\ res = ServerInit(k) /\ second = "none"
+\* what the second INIT offers, relative to the first (always something the client's minor lets it send)
+Hows == {"same", "none", "full", "compl"}
+K2(c, how) ==
+  LET lo == IF c.stack = "scripted" THEN SLow ELSE LLow
+      hi == IF c.stack = "scripted" THEN HighBits ELSE {"PERFILE_DAX"}
+      allow == IF c.minor = "m4" THEN {} ELSE IF c.minor = "m22" THEN lo \cap Old22 ELSE lo
+      allow2 == IF c.minor = "m33" THEN hi ELSE {}
+  IN CASE how = "same" -> c
+       [] how = "none" -> [c EXCEPT !.flags = {}, !.flags2 = {}, !.ext = FALSE]
+       [] how = "full" -> [c EXCEPT !.flags = allow, !.flags2 = allow2, !.ext = (c.minor = "m33")]
+       [] OTHER -> [c EXCEPT !.flags = allow \ c.flags, !.flags2 = allow2 \ c.flags2, !.ext = (c.minor = "m33")]
+NoSecond == [how |-> "none", destroyed |-> FALSE, k2 |-> <<>>, r |-> Refused, t |-> NoSw, want |-> {}, called |-> FALSE]
+Init == k \in Universe /\ stage = "start" /\ res = ServerInit(k) /\ second = NoSecond
 Negotiate == stage = "start" /\ stage' = "inited" /\ UNCHANGED <<k, res, second>>
-\* a second INIT: the VFS refuses it (EINVAL) and nothing changes; other stacks are not constrained
 SecondInit == /\ stage = "inited" /\ stage' = "done"
-              /\ second' = IF k.stack = "vfs_pt" /\ res.called THEN "EINVAL" ELSE "any"
+              /\ \E how \in Hows, d \in BOOLEAN :
+                   LET c2 == K2(k, how)  s == SecondSession(k, res, c2, d)
+                   IN second' = [how |-> how, destroyed |-> d, k2 |-> c2, r |-> s.r, t |-> s.t, want |-> s.want, called |-> s.called]
               /\ UNCHANGED <<k, res>>
 Next == Negotiate \/ SecondInit
 Spec == Init /\ [][Next]_vars
@@ -135,5 +184,10 @@ Spec == Init /\ [][Next]_vars
 WantOf(c) == IF c.major = "eq" THEN FsInit(c, IF "INIT_EXT" \in c.flags THEN (IF c.ext THEN c.flags \cup c.flags2 ELSE c.flags \ {"INIT_EXT"}) ELSE c.flags).want ELSE {}
 InvReply == ReplyOK(k, res.r, WantOf(k))
 InvSwitches == SwitchesOK(res.r, res.t)
-InvSecond == (stage = "done" /\ k.stack = "vfs_pt" /\ res.called) => second = "EINVAL"
+\* the VFS refuses a second INIT while it is initialised, and a refused INIT changes nothing
+InvSecond == (stage = "done" /\ k.stack = "vfs_pt" /\ res.called /\ ~second.destroyed) => (second.r.status = "EINVAL" /\ second.t = res.t)
+\* A-level for the second session: the switches that are on were negotiated by the INIT that is in force
+InForce(r1, r2) == IF r2.status = "ok" THEN r2 ELSE r1
+InvSecondReply == (stage = "done" /\ second.called) => (MaySend(second.k2) /\ ReplyOK(second.k2, second.r, second.want))
+InvSecondSwitches == stage = "done" => SwitchesOK(InForce(res.r, second.r), second.t)
 =============================================================================
